@@ -26,7 +26,7 @@ ASSUMPTIONS = [
     "Cauchy integral with 96 nodes on a circle of radius 0.4 x distance to the nearest singularity of the exponent",
 ]
 REQUIRED_COUNTERS = ["exponent_real_axis", "exponent_imaginary_axis", "cumulant_checks", "conversion_roundtrips",
-                     "conversion_differences", "martingale_cf", "martingale_direct_drift", "martingale_chain_drift", "models_reached_by_parameter_update"]
+                     "conversion_differences", "martingale_cf", "martingale_direct_drift", "martingale_chain_drift", "models_reached_by_parameter_update", "exponent_after_conversion"]
 MIN_NONTRIVIAL = {"quick": 30, "thorough": 300}
 THOROUGH_ROUNDS = 8      # the thorough tier runs the generators this many times (different seeds)
 SHARD_TIMEOUT = {"quick": 900, "thorough": 7200}
@@ -228,6 +228,10 @@ def run_case(case, R):
         seq = [str(rng.choice(reps)) for _ in range(6)] + [rep0]
         cur_rep, cur_a = rep0, float(t2.a)
         ok = True
+        base2 = m2.levy_model if spec.get("exp") else m2
+        smin, smax = _strip(spec)
+        probe = [0.7, -2.3, -1j * 0.4 * smax, -1j * 0.4 * smin]      # real arguments and imaginary ones inside the strip of finite exponential moments
+        psi0 = [complex(base2.levy_exponent(z)) for z in probe]
         for nxt in seq:
             try:
                 t2.set_representation(getattr(LevyRepresentation, nxt))
@@ -250,6 +254,15 @@ def run_case(case, R):
                     ok = False
                     break
             cur_rep, cur_a = nxt, new_a
+            # re-declaring the triplet in another representation does not change the process: the exponent must stay what it was
+            R.hit("exponent_after_conversion")
+            psi = [complex(base2.levy_exponent(z)) for z in probe]
+            dev = max(abs(p1 - p0) for p1, p0 in zip(psi, psi0))
+            if not (dev <= 1e-9 * (1 + max(abs(p0) for p0 in psi0))):
+                R.violation(f"{fam}-exponent-changes-with-declared-representation", f"{label}: after set_representation({nxt}) levy_exponent({probe}) = {psi}, "
+                            f"it was {psi0} in {rep0} (same process, triplet re-declared)", wit)
+                ok = False
+                break
         if ok:
             R.hit("conversion_roundtrips")
             if not (abs(cur_a - a0) <= 1e-11 * (1 + abs(a0)) + 1e-12):
